@@ -28,8 +28,8 @@ from vlib import log
 PROPS = ("C01", "C07", "C13")
 
 TIERS = {
-    "quick": dict(tier_env="quick", workers=8, bytes_len=4, alpha="24", mutants=4000, random=500, short_len=3,
-                  valid_max=3000, shards=4, mutants_c13=2500, short_len_c13=2, timeout=1200),
+    "quick": dict(tier_env="quick", workers=8, bytes_len=4, alpha="24", mutants=8000, random=1000, short_len=3,
+                  valid_max=3000, shards=4, mutants_c13=4000, short_len_c13=2, timeout=1200),
     "thorough": dict(tier_env="thorough", workers=12, bytes_len=5, alpha="24", mutants=60000, random=6000, short_len=4,
                      valid_max=30000, shards=10, mutants_c13=30000, short_len_c13=3, timeout=3000),
 }
